@@ -64,12 +64,20 @@ def _hist(ctx, rec, model):
         inp = rec["input"]
         cov.count("bus.aw=%d" % inp["aw"])
         cov.count("bus.dw=%d" % inp["dw"])
-        for op, w in zip(inp["ops"], parts[0].split()):
+        nres = len((inp.get("cfg") or {}).get("reserved", []))
+        cfg = inp.get("cfg") or {}
+        cov.count("bus.interconnect=%s" % cfg.get("ic", "shared"))
+        cov.count("bus.standard=%s" % cfg.get("std", "wishbone"))
+        cov.count("bus.via_SoC_helpers" if cfg.get("soc") else "bus.direct_handler")
+        cov.count("bus.reserved_regions", nres)
+        for op, w in zip(inp["ops"], parts[0].split()[nres:]):
             rq = L.op_request(op)
             if rq is not None:
                 what = "io" if rq[1] else ("alloc" if rq[2] is None else "fixed")
                 cov.count("bus.%s.%s" % (what, "ok" if w == "ok" else "rej"))
     elif k == "loc":
+        cov.count("loc.via_SoC_helpers" if rec["input"].get("via_soc") else "loc.direct_handler")
+        cov.count("loc.reserved", len(rec["input"].get("reserved", [])))
         parts = model.split(" # ")
         if len(parts) > 1:
             for w in parts[1].split():
@@ -77,6 +85,7 @@ def _hist(ctx, rec, model):
         else:
             cov.count("loc.ctor-rej")
     elif k == "cm":
+        cov.count("cm.via_GenericPlatform" if rec["input"].get("plat") else "cm.direct_manager")
         for w in model.split(" # ")[0].split():
             cov.count("cm.out." + w.split(":")[0] + (":" + w.split(":")[1] if w.startswith("err") else ""))
     elif k == "dec":
@@ -147,7 +156,13 @@ def run_corpus(ctx, dis, stats):
     for f in sorted(glob.glob(os.path.join(CORPUS, "*.json"))):
         c = json.load(open(f))
         inp = c["input"]
-        line, real, alarm, res = L.rerun_input(inp, known)
+        try:
+            with L.time_limit(60):
+                line, real, alarm, res = L.rerun_input(inp, known)
+        except Exception as e:       # a witness that can no longer be executed is a reported disagreement
+            dis.append(Dis("corpus", inp, "", "exception " + type(e).__name__, c.get("expect_real", ""),
+                           "corpus witness %s raised %s: %s" % (os.path.basename(f), type(e).__name__, str(e)[:200])))
+            continue
         rec = {"kind": inp["kind"], "line": line, "real": real, "alarm": alarm, "input": inp, "nontrivial": 1,
                "nops": len(inp.get("ops", [])), "dec": res.get("dec", []), "p2p": res.get("p2p")}
         if "expect_real" in c and c["expect_real"] != real:
@@ -168,15 +183,16 @@ def hw_cases(ctx, n, dis, stats):
         tries += 1
         aw = rng.choice([10, 12])
         dw = rng.choice([32, 64])
-        _, _, ops, run = L.gen_bus_history(rng, nops=rng.randint(5, 12), cfg=(aw, dw))
+        _, _, ops, run = L.gen_bus_history(rng, nops=rng.randint(5, 12), cfg=(aw, dw), hw=True)
         if len(run.bus.slaves) < 2 or not run.bus.masters:
             continue
-        alarm, bits, fin = L.hw_decoder_check(aw, dw, ops, known)
+        with L.time_limit(120):
+            alarm, bits, fin = L.hw_decoder_check(aw, dw, ops, known, run.cfg)
         if bits is None:
             continue
         done += 1
         lines, names = [], []
-        r0 = L.BusRun(aw, dw)
+        r0 = L.BusRun(aw, dw, run.cfg)
         for op in ops:
             r0.apply(tuple(op))
         for nme in bits:
@@ -184,7 +200,8 @@ def hw_cases(ctx, n, dis, stats):
             lines.append("decall %d %d %d %d %s" % (aw, dw, r.origin, r.size, L.b(r.decode)))
             names.append(nme)
         ans = ctx.lean.call_batch(lines)
-        inp = {"kind": "bus", "aw": aw, "dw": dw, "ops": [list(o) for o in ops], "hw": True}
+        inp = {"kind": "bus", "aw": aw, "dw": dw, "cfg": run.cfg, "ops": [list(o) for o in ops], "hw": True}
+        ctx.cov.count("hw.interconnect=%s" % run.cfg["ic"])
         for nme, l, a in zip(names, lines, ans):
             stats["dec_cmp"] += 1
             if a != bits[nme]:
@@ -277,6 +294,8 @@ def shrink(inp, known):
 
 def _found(inp, known, how):
     """Confirm (re-execute) and shrink a failing input; None when the alarm does not reproduce."""
+    if inp.get("unreproducible"):
+        return None
     _, _, alarm, _ = L.rerun_input(inp, known)
     if not alarm:
         return None
@@ -297,10 +316,14 @@ def search(ctx, disagreements, proof_info):
             if getattr(d, "alarm", None) and inp is not None:
                 return {"input": inp, "oracle": d.alarm, "found_by": "interconnect hardware run"}
             continue
-        try:
-            _, _, alarm, _ = L.rerun_input(inp, known)
-        except Exception:
+        if inp.get("unreproducible"):
             continue
+        try:
+            with L.time_limit(60):
+                _, _, alarm, _ = L.rerun_input(inp, known)
+        except Exception as e:
+            return {"input": inp, "oracle": "re-executing the recorded input raised %s: %s" % (type(e).__name__, str(e)[:200]),
+                    "found_by": "replay of a recorded disagreement"}
         if alarm:
             f = _found(inp, known, "replay of a recorded disagreement with oracles armed")
             if f:
@@ -337,6 +360,16 @@ def _accepted(fn):
 
 
 def probes(ctx):
+    """Each probe runs guarded: a probe that raises or hangs counts as 'still fails' with the exception as text."""
+    try:
+        with L.time_limit(60):
+            return _probes(ctx)
+    except Exception as e:
+        what = "probe raised %s: %s" % (type(e).__name__, str(e)[:200])
+        return [(e_["id"], True, what) for e_ in ctx.known]
+
+
+def _probes(ctx):
     S = L.S
     out = []
     # fixed: SoCLocHandler.add(name, n = n_locs)
